@@ -315,7 +315,14 @@ void h_assert(void)
 
 static Array g_arr;
 static DynArray g_dyn;
-static Value g_argv[3];
+/* argument vector: the container argument is given by a STATIC INITIALISER (one union component, constant pointer): a run-time
+ * write of the pointer member into the Value union leaves a byte_update term, the container pointer stops being a constant for
+ * symbolic execution and every element-kind arm (strings, structs) of the builtin is walked */
+#if VERIF_AK == AK_ARRAY
+static Value g_argv[3] = { { .type = VAL_ARRAY, .as = { .array_val = &g_arr } }, { .type = VAL_INT }, { .type = VAL_INT } };
+#else
+static Value g_argv[3] = { { .type = VAL_DYN_ARRAY, .as = { .dyn_array_val = &g_dyn } }, { .type = VAL_INT }, { .type = VAL_INT } };
+#endif
 
 void h_acc(void)
 {
@@ -326,14 +333,12 @@ void h_acc(void)
     g_arr.element_type = EL_VT; g_arr.length = (int)in_len; g_arr.capacity = (int)in_cap;
     g_arr.data = malloc((size_t)in_cap * EL_SZ);
     __CPROVER_assume(g_arr.data != NULL);
-    g_argv[0].type = VAL_ARRAY; g_argv[0].as.array_val = &g_arr;
 #else
     /* DynArray well-formed as C20 proves it is kept (DYN_WF): 0 <= length <= capacity, capacity >= 1, store of capacity*elem_size bytes */
     __CPROVER_assume(0 <= in_len && in_len <= in_cap && 1 <= in_cap && in_cap <= ((int64_t)1 << 40));
     g_dyn.length = in_len; g_dyn.capacity = in_cap; g_dyn.elem_type = EL_DT; g_dyn.elem_size = EL_SZ;
     g_dyn.data = malloc((size_t)in_cap * EL_SZ);
     __CPROVER_assume(g_dyn.data != NULL);
-    g_argv[0].type = VAL_DYN_ARRAY; g_argv[0].as.dyn_array_val = &g_dyn;
 #endif
     g_argv[1].type = VAL_INT; g_argv[1].as.int_val = in_idx;
 #if VERIF_ACC == ACC_SET
@@ -500,13 +505,11 @@ void h_slice(void)
     __CPROVER_assume(0 <= in_len && in_len <= in_cap && in_cap <= VERIF_SLICE_CAP);
     g_arr.element_type = VAL_INT; g_arr.length = (int)in_len; g_arr.capacity = (int)in_cap;
     g_arr.data = malloc((size_t)in_cap * 8); __CPROVER_assume(g_arr.data != NULL);
-    g_argv[0].type = VAL_ARRAY; g_argv[0].as.array_val = &g_arr;
 #define SRC_AT(k) (((long long *)g_arr.data)[k])
 #else
     __CPROVER_assume(0 <= in_len && in_len <= in_cap && 1 <= in_cap && in_cap <= VERIF_SLICE_CAP);
     g_dyn.length = in_len; g_dyn.capacity = in_cap; g_dyn.elem_type = ELEM_INT; g_dyn.elem_size = 8;
     g_dyn.data = malloc((size_t)in_cap * 8); __CPROVER_assume(g_dyn.data != NULL);
-    g_argv[0].type = VAL_DYN_ARRAY; g_argv[0].as.dyn_array_val = &g_dyn;
 #define SRC_AT(k) (((int64_t *)g_dyn.data)[k])
 #endif
     g_argv[1].type = VAL_INT; g_argv[1].as.int_val = in_start;
